@@ -1,5 +1,6 @@
 # configuration of ./check C18 (see checklib/props.py)
-PROP = {'level': 'translation_validation',
+PROP = {'facts': ['c18pkg'],
+ 'level': 'translation_validation',
  'rule': 'One case per artefact: every directory under /repo that holds a generate.go with a go:generate line (globbed at run time: 32 helper '
          'packages + debug). The go:generate line is parsed like cmd/radius-dict-gen/main.go parses its flags; the dictionary next to it is parsed '
          'with the working tree\'s parser (IgnoreIdenticalAttributes=true) and fed to the working tree\'s dictionarygen.Generator in-process; the '
